@@ -1,5 +1,6 @@
 import TxdbusModel.Auth.Mechs
 import TxdbusModel.Auth.ServerLines
+import TxdbusModel.Proofs.Auth.ServerHex
 /-
 The real mechanisms (C06): the cookie mechanism accepts only on its second step and only the right
 hash; what the conforming conversations need from the three mechanisms.
@@ -50,6 +51,88 @@ theorem cookieStep_accept (w : RealWorld) (c : CookieSt) (arg : Option Bytes)
             · simp at h
           · simp at h
       · simp [h1] at h
+
+/-! ## the cookie mechanism on a conforming exchange -/
+
+theorem lookupFile_setFile (w : RealWorld) (h : Bytes) (f : Option (List CookieEnt)) :
+    lookupFile (setFile w h f) h = f := by
+  unfold lookupFile setFile
+  cases f with
+  | none =>
+    simp only
+    have : (w.files.filter (fun p => p.1 ≠ h)).find? (fun p => p.1 = h) = none := by
+      rw [List.find?_eq_none]; intro x hx; simp at hx; simp [hx.2]
+    simp [this]
+  | some c => simp
+
+theorem deleteCookie_isSome (w : RealWorld) (home : Bytes) (id : Option Nat)
+    (h : (lookupFile w home).isSome = true) : (deleteCookie w home id).isSome = true := by
+  unfold deleteCookie
+  cases hl : lookupFile w home with
+  | none => rw [hl] at h; cases h
+  | some v =>
+    simp only
+    split <;> (split <;> rfl)
+
+theorem cookieChallenge_spec (w : RealWorld) (c : CookieSt) (home : Bytes) :
+    ∃ w1 cid cookie chal,
+      cookieChallenge w c home =
+        (w1, { c with cookieId := some cid, cookie := cookie, challenge := chal },
+         .challenge (w.cfg.ctx ++ 32 :: natToDec cid ++ 32 :: chal)) ∧
+      w1.cfg = w.cfg ∧ lookupFile w1 home = some (getCookies w home ++ [⟨cid, w.cfg.now, cookie⟩]) :=
+  ⟨_, _, _, _, rfl, rfl, by
+    show lookupFile (urandom (createCookie w home).1 8).1 home = _
+    unfold createCookie urandom
+    exact lookupFile_setFile _ _ _⟩
+
+/-- First step of DBUS_COOKIE_SHA1 for a user name with a passwd entry and a usable (or absent) keyring
+directory: a challenge, and the session's cookie is in the file. -/
+theorem cookie_step_one_ok (w : RealWorld) (c : CookieSt) (user : Bytes) (e : PwEnt)
+    (h0 : c.stepNum = 0) (hp : parseInt user = none) (hn : getpwnam w.cfg user = some e)
+    (hd : lookupDir w e.home ≠ .bad) :
+    ∃ w1 c1 cid,
+      cookieStep w c (some user) =
+        (w1, c1, .challenge (w.cfg.ctx ++ 32 :: natToDec cid ++ 32 :: c1.challenge)) ∧
+      c1.stepNum = 1 ∧ c1.username = some user ∧ c1.home = e.home ∧ c1.cookieId = some cid ∧ w1.cfg = w.cfg ∧
+      (∃ old, lookupFile w1 e.home = some (old ++ [⟨cid, w.cfg.now, c1.cookie⟩])) := by
+  unfold cookieStep
+  simp only [h0, if_true]
+  unfold cookieStepOne resolveUser
+  simp only [hp, hn]
+  cases hdir : lookupDir w e.home with
+  | bad => exact absurd hdir hd
+  | absent =>
+    simp only
+    obtain ⟨w1, cid, cookie, chal, h1, h2, h3⟩ :=
+      cookieChallenge_spec (setDir w e.home .good) { c with stepNum := 0 + 1, username := some user, home := e.home } e.home
+    rw [h1]
+    exact ⟨w1, _, cid, rfl, rfl, rfl, rfl, rfl, h2, _, h3⟩
+  | good =>
+    simp only
+    obtain ⟨w1, cid, cookie, chal, h1, h2, h3⟩ :=
+      cookieChallenge_spec w { c with stepNum := 0 + 1, username := some user, home := e.home } e.home
+    rw [h1]
+    exact ⟨w1, _, cid, rfl, rfl, rfl, rfl, rfl, h2, _, h3⟩
+
+/-- Second step: the response `<cc> <hexlify(sha1(challenge:cc:cookie))>` is accepted. -/
+theorem cookie_step_two_ok (w : RealWorld) (c : CookieSt) (cc : Bytes) (h1 : c.stepNum = 1)
+    (hfile : (lookupFile w c.home).isSome = true) (hcc : cc ≠ []) (hncc : NoSpace cc)
+    (hsha : ∀ x, w.cfg.sha1 x ≠ []) :
+    (cookieStep w c (some (cc ++ 32 :: cookieHash w.cfg.sha1 c.challenge cc c.cookie))).2.2 = .accept ∧
+    (cookieStep w c (some (cc ++ 32 :: cookieHash w.cfg.sha1 c.challenge cc c.cookie))).2.1.username = c.username := by
+  unfold cookieStep
+  simp only [h1, show ¬ (1 = 0) by decide, if_false, if_true]
+  unfold cookieStepTwo
+  have hdel := deleteCookie_isSome w c.home c.cookieId hfile
+  cases hd : deleteCookie w c.home c.cookieId with
+  | none => rw [hd] at hdel; cases hdel
+  | some w1 =>
+    simp only
+    have hsplit : splitWs (cc ++ 32 :: cookieHash w.cfg.sha1 c.challenge cc c.cookie) =
+        [cc, cookieHash w.cfg.sha1 c.challenge cc c.cookie] :=
+      splitWs_two _ _ hcc (hexlify_ne_nil _ (hsha _)) hncc (noSpace_hexlify _)
+    rw [hsplit]
+    simp
 
 /-! ## conforming conversations, line level -/
 
@@ -135,5 +218,111 @@ theorem external_lines (s : Server RealWorld Inst) (uid : Nat) (e : PwEnt) (hs :
     simp [handle, d1, d2, d3, authDATA, stepAuth, decodeResponse, real_step_ext1]
   rw [h2]
   simp [handle, f1, f2, f3, authBEGIN, real_user_ext, hu]
+
+theorem decodeResponse_hexlify (x : Bytes) (hx : x ≠ []) (ha : isAscii x = true) :
+    decodeResponse (some (hexlify x)) = some (some x) := by
+  have hne := hexlify_ne_nil x hx
+  unfold decodeResponse
+  cases hh : hexlify x with
+  | nil => exact absurd hh hne
+  | cons b t =>
+    simp only
+    rw [← hh, strip_noSpace _ (noSpace_hexlify x), unhexlify_hexlify]
+    simp [ha]
+
+/-- The first line of a DBUS_COOKIE_SHA1 client. -/
+def cookieAuthLine (user : Bytes) : Bytes := lit "AUTH DBUS_COOKIE_SHA1 " ++ hexlify user
+
+/-- Its answer to the challenge: `DATA hex(<cc> <hexlify(sha1(challenge:cc:cookie))>)`. -/
+def cookieDataLine (sha1 : Bytes → Bytes) (chal cc cookie : Bytes) : Bytes :=
+  lit "DATA " ++ hexlify (cc ++ 32 :: cookieHash sha1 chal cc cookie)
+
+/-- DBUS_COOKIE_SHA1 with the right cookie: challenge, OK, BEGIN authenticates as the named user. -/
+theorem cookie_lines (s : Server RealWorld Inst) (user cc : Bytes) (e : PwEnt)
+    (hs : s.state = .waitingForAuth)
+    (hu0 : user ≠ []) (hua : isAscii user = true) (hup : parseInt user = none)
+    (hun : getpwnam s.world.cfg user = some e) (hud : lookupDir s.world e.home ≠ .bad)
+    (hcc : cc ≠ []) (hncc : NoSpace cc) (hcca : isAscii cc = true)
+    (hsha : ∀ x, s.world.cfg.sha1 x ≠ []) :
+    ∃ (c1 : CookieSt) (cid : Nat),
+      (handle real s (cookieAuthLine user)).res = .ok ∧
+      (handle real s (cookieAuthLine user)).srv.authenticated = s.authenticated ∧
+      (handle real s (cookieAuthLine user)).sent =
+        [wData ++ hexlify (s.world.cfg.ctx ++ 32 :: natToDec cid ++ 32 :: c1.challenge)] ∧
+      (∃ old, lookupFile (handle real s (cookieAuthLine user)).srv.world e.home =
+        some (old ++ [⟨cid, s.world.cfg.now, c1.cookie⟩])) ∧
+      (handle real (handle real s (cookieAuthLine user)).srv
+        (cookieDataLine s.world.cfg.sha1 c1.challenge cc c1.cookie)).res = .ok ∧
+      (handle real (handle real s (cookieAuthLine user)).srv
+        (cookieDataLine s.world.cfg.sha1 c1.challenge cc c1.cookie)).sent = [wOk ++ s.serverGuid] ∧
+      (handle real (handle real s (cookieAuthLine user)).srv
+        (cookieDataLine s.world.cfg.sha1 c1.challenge cc c1.cookie)).srv.authenticated = s.authenticated ∧
+      (handle real (handle real (handle real s (cookieAuthLine user)).srv
+        (cookieDataLine s.world.cfg.sha1 c1.challenge cc c1.cookie)).srv (lit "BEGIN")).res = .ok ∧
+      (handle real (handle real (handle real s (cookieAuthLine user)).srv
+        (cookieDataLine s.world.cfg.sha1 c1.challenge cc c1.cookie)).srv (lit "BEGIN")).srv.authenticated = true ∧
+      (handle real (handle real (handle real s (cookieAuthLine user)).srv
+        (cookieDataLine s.world.cfg.sha1 c1.challenge cc c1.cookie)).srv (lit "BEGIN")).srv.guid = some user := by
+  -- line 1
+  have a1 : cookieAuthLine user = lit "AUTH" ++ 32 :: (lit "DBUS_COOKIE_SHA1" ++ 32 :: hexlify user) := rfl
+  have a2 : splitCmd (cookieAuthLine user) = (lit "AUTH", lit "DBUS_COOKIE_SHA1" ++ 32 :: hexlify user) := by
+    rw [a1]; exact splitCmd_noSpace _ _ (by decide)
+  have a3 : utf8Valid (lit "AUTH") = true := by decide
+  have a4 : parseCmd (lit "AUTH") = .auth := by decide
+  have a5 : splitWs (lit "DBUS_COOKIE_SHA1" ++ 32 :: hexlify user) = [lit "DBUS_COOKIE_SHA1", hexlify user] :=
+    splitWs_two _ _ (by decide) (hexlify_ne_nil _ hu0) (by unfold NoSpace; decide) (noSpace_hexlify _)
+  obtain ⟨w1, c1, cid, k1, k2, k3, k4, k5, k6, k7⟩ :=
+    cookie_step_one_ok s.world CookieSt.init user e rfl hup hun hud
+  have h1 : handle real s (cookieAuthLine user) =
+      ⟨{ s with world := w1, cur := some (lit "DBUS_COOKIE_SHA1", .cookie c1), state := .waitingForData },
+        [wData ++ hexlify (s.world.cfg.ctx ++ 32 :: natToDec cid ++ 32 :: c1.challenge)], .ok,
+        some (lit "DBUS_COOKIE_SHA1", .challenge (s.world.cfg.ctx ++ 32 :: natToDec cid ++ 32 :: c1.challenge)),
+        false⟩ := by
+    simp [handle, a2, a3, a4, authAUTH, hs, a5, real_offers_cookie, stepAuth, decodeResponse_hexlify user hu0 hua,
+      real_start_cookie, real_step_cookie, k1]
+  refine ⟨c1, cid, ?_⟩
+  rw [h1]
+  refine ⟨rfl, rfl, rfl, ?_, ?_⟩
+  · exact k7
+  -- line 2
+  have b1 : cookieDataLine s.world.cfg.sha1 c1.challenge cc c1.cookie =
+      lit "DATA" ++ 32 :: hexlify (cc ++ 32 :: cookieHash s.world.cfg.sha1 c1.challenge cc c1.cookie) := rfl
+  have b2 : splitCmd (cookieDataLine s.world.cfg.sha1 c1.challenge cc c1.cookie) =
+      (lit "DATA", hexlify (cc ++ 32 :: cookieHash s.world.cfg.sha1 c1.challenge cc c1.cookie)) := by
+    rw [b1]; exact splitCmd_noSpace _ _ (by decide)
+  have b3 : utf8Valid (lit "DATA") = true := by decide
+  have b4 : parseCmd (lit "DATA") = .data := by decide
+  have b5 : decodeResponse (some (hexlify (cc ++ 32 :: cookieHash s.world.cfg.sha1 c1.challenge cc c1.cookie))) =
+      some (some (cc ++ 32 :: cookieHash s.world.cfg.sha1 c1.challenge cc c1.cookie)) := by
+    apply decodeResponse_hexlify
+    · simp
+    · have : isAscii (cookieHash s.world.cfg.sha1 c1.challenge cc c1.cookie) = true := isAscii_hexlify _
+      rw [isAscii_append, hcca]
+      simp only [Bool.true_and]
+      unfold isAscii at this ⊢
+      simp [this]
+  have hfile : (lookupFile w1 c1.home).isSome = true := by
+    obtain ⟨old, ho⟩ := k7
+    rw [k4, ho]; rfl
+  have hsha1 : ∀ x, w1.cfg.sha1 x ≠ [] := by rw [k6]; exact hsha
+  obtain ⟨m1, m2⟩ := cookie_step_two_ok w1 c1 cc k2 hfile hcc hncc hsha1
+  rw [k6] at m1 m2
+  generalize hstep2 : cookieStep w1 c1 (some (cc ++ 32 :: cookieHash s.world.cfg.sha1 c1.challenge cc c1.cookie)) = r2
+    at m1 m2
+  obtain ⟨w2, c2, o2⟩ := r2
+  simp only at m1 m2
+  subst m1
+  have h2 : handle real
+      { s with world := w1, cur := some (lit "DBUS_COOKIE_SHA1", .cookie c1), state := .waitingForData }
+      (cookieDataLine s.world.cfg.sha1 c1.challenge cc c1.cookie) =
+      ⟨{ s with world := w2, cur := some (lit "DBUS_COOKIE_SHA1", .cookie c2), state := .waitingForBegin },
+        [wOk ++ s.serverGuid], .ok, some (lit "DBUS_COOKIE_SHA1", .accept), false⟩ := by
+    simp [handle, b2, b3, b4, authDATA, stepAuth, b5, real_step_cookie, hstep2]
+  rw [h2]
+  refine ⟨rfl, rfl, rfl, ?_⟩
+  have f1 : splitCmd (lit "BEGIN") = (lit "BEGIN", []) := by decide
+  have f2 : utf8Valid (lit "BEGIN") = true := by decide
+  have f3 : parseCmd (lit "BEGIN") = .begin := by decide
+  simp [handle, f1, f2, f3, authBEGIN, real_user_cookie, m2, k3]
 
 end Txdbus.AuthServer
